@@ -297,9 +297,10 @@ class Gen:
             kinds.append(("fault", 1))
         if scope["aliases"]:
             kinds.append(("alias", 4))
-        if scope.get("loops", 0) > 0 and (P.get("collide") or not in_fill):
+        if scope.get("loops", 0) > 0 and (self.pool_bindings() or not in_fill):
             # (`forloop` collides by nature with every other loop; inside fill content that meets open finding F15, so it
-            # is echoed there only in collision mode, where C03's diagnosis can tell F15 from a new defect)
+            # is echoed there only in collision mode, where C03's diagnosis can tell F15 from a new defect - and, like the
+            # other colliding bindings, not in django-mode programs that use `only`: thorough run 138899)
             kinds.append(("forloop", 3))
         k = kinds[ch.weighted([w for _, w in kinds], "kind")][0]
         if k == "text":
